@@ -370,6 +370,15 @@ func runBisect(c *hlib.Ctx, n int) {
 			x = xs[k-1]
 		case 2:
 			x = xs[0] - 1 - math.Abs(xs[k-1]-xs[0]) // not bracketed
+		case 3:
+			// root closer to an end than 2^-63: the interval never leaves that end, so the result
+			// depends on the exact number of halvings
+			for j := range xs {
+				xs[j] = float64(j) * (1 + c.Rng.Float64())
+				b[j] = model2d.XY(xs[j], 0)
+			}
+			x = math.Ldexp(1+c.Rng.Float64(), -70-c.Rng.Intn(20))
+			c.Stat("c17.bisect.root_at_end", 1)
 		}
 		emit(c, md, "bisect", join(md.num(x), itoa(k), md.nums(xs...)), func() string {
 			return md.out(model2d.CurveInverseX(b, x))
